@@ -109,6 +109,18 @@ def unionColsWith (concat : FieldList → FieldList → Option FieldList) (l r :
 def unionCols : MType → MType → Option MType := unionColsWith concatPy
 def unionColsStrict : MType → MType → Option MType := unionColsWith concatStrict
 
+/-- `mt.annotate_rows / annotate_cols (m = use(right.index(key exprs, all_matches)))` with the key fields of that axis as the
+expressions: `MatrixAnnotateRowsTable(child, table, root, product)` / `MatrixAnnotateColsTable(child, table, root)`.  A column
+lookup into an interval-keyed table with `all_matches` is not implemented by the front end. -/
+def indexAnnotate (root : TType → List HType → Bool → Option HType) (m : MType) (a : Axis) (r : TType) (exprTypes : List HType)
+    (allMatches len : Bool) (name : String) : Option MType :=
+  if a == .cols && isIntervalIndex r exprTypes && allMatches then none
+  else match root r exprTypes allMatches with
+    | none => none
+    | some t => match useRoot len t with
+      | none => none
+      | some u => annotate m a [(name, u)]
+
 /-- `mt.rows()`: `rowsTableType` -/
 def rowsTable (m : MType) : TType := ⟨m.globals, m.row, m.rowKey⟩
 /-- `mt.cols()`: `colsTableType` -/
